@@ -251,5 +251,56 @@ func c12(args []string) error {
 		call("ctl", "insert", it.GetID(), func() error { return reactor.ReceiveInsert(it) })
 		call("ctl", "finish", it.GetID(), func() error { return reactor.MarkAsFinished(it) })
 	}
+	// ---- two finishers racing for the same seed, many times: exactly one of them owns the token
+	{
+		sc := n + 1
+		rounds := 60 * n
+		out := make(chan *models.Item, 4)
+		if err := reactor.Start(max, out); err != nil {
+			return err
+		}
+		tr.Emit(map[string]any{"ev": "start", "sc": sc, "max": max, "items": rounds, "prod": 1, "work": 2, "mid": false})
+		emitCall := func(c, op, id string, f func() error) string {
+			tr.Emit(map[string]any{"ev": "call", "sc": sc, "c": c, "op": op, "id": id})
+			done := make(chan string, 1)
+			go func() { done <- c12res(f()) }()
+			select {
+			case r := <-done:
+				tr.Emit(map[string]any{"ev": "ret", "sc": sc, "c": c, "op": op, "id": id, "res": r})
+				return r
+			case <-time.After(4 * time.Second):
+				tr.Emit(map[string]any{"ev": "stuck", "sc": sc, "c": c, "op": op, "id": id})
+				return "stuck"
+			}
+		}
+		stuck := false
+		for k := 0; k < rounds && !stuck; k++ {
+			it := c12item(fmt.Sprintf("race%d", k))
+			if emitCall("p1", "insert", it.GetID(), func() error { return reactor.ReceiveInsert(it) }) != "nil" {
+				break
+			}
+			got := <-out
+			tr.Emit(map[string]any{"ev": "out", "sc": sc, "id": got.GetID()})
+			start := make(chan struct{})
+			res := make(chan string, 2)
+			for _, c := range []string{"w1", "w2"} {
+				go func(c string) {
+					<-start
+					res <- emitCall(c, "finish", it.GetID(), func() error { return reactor.MarkAsFinished(it) })
+				}(c)
+			}
+			close(start)
+			if a, b := <-res, <-res; a == "stuck" || b == "stuck" {
+				stuck = true
+			}
+		}
+		if stuck {
+			tr.Emit(map[string]any{"ev": "abort", "sc": sc})
+			return nil
+		}
+		tr.Emit(map[string]any{"ev": "snap", "sc": sc, "table": reactor.GetStateTable(), "tokens": reactor.TokensInUseForVerif(), "accepted": rounds, "delivered": rounds})
+		emitCall("ctl", "freeze", "none", func() error { reactor.Freeze(); return nil })
+		emitCall("ctl", "stop", "none", func() error { reactor.Stop(); return nil })
+	}
 	return nil
 }
